@@ -20,6 +20,7 @@ Contents == {<<>>} \cup {<<x>> : x \in HT} \cup {<<p[1], p[2]>> : p \in {q \in H
 NodeReqs == {[op |-> "AddInvoice", h |-> h, a |-> a] : h \in HashSet, a \in 1..3}
         \cup {[op |-> "AddKeysend", h |-> h, a |-> a] : h \in HashSet, a \in 1..2}
         \cup {[op |-> "DeclineInvoice", h |-> h, a |-> 2] : h \in HashSet}
+        \cup {[op |-> "IssueInvoice", h |-> h, a |-> a] : h \in HashSet, a \in 1..2}
         \cup {[op |-> "Fulfill", h |-> h] : h \in HashSet}
         \cup {[op |-> "Tick"], [op |-> "Heartbeat"], [op |-> "Restart"]}
 \* per step: the node-level requests and, per channel, the requests for three random contents
@@ -30,7 +31,7 @@ Init == s = InitState(ChanSet, HashSet) /\ hist = <<>> /\ w = 0
 Next == /\ Len(hist) < Depth
         /\ \E r \in Cand :
               LET o == Step(s, r, K)
-                  wt == IF o.s # s THEN (IF r.op \in {"AddInvoice", "AddKeysend", "Tick"} THEN 3 ELSE 8)
+                  wt == IF o.s # s THEN (IF r.op \in {"AddInvoice", "AddKeysend", "IssueInvoice", "Tick"} THEN 3 ELSE 8)
                         ELSE IF o.resp.ok THEN 1 ELSE 2 IN
               \E k \in 1..wt :
                 /\ s' = o.s
